@@ -25,10 +25,12 @@ def run(ctx):
         mcs = [("MCRP_small.cfg", "safety: n<=2, scripts<=3 + long, bounds 1/2, pool", False),
                ("MCRP_quick.cfg", "safety: n<=2, scripts<=2 + long, bounds 1/2, pool, fd", True),
                ("MCRP_liveT.cfg", "liveness (termination under weak fairness), n<=2", False),
-               ("MCRP_big.cfg", "safety: 6 chunks, bounds 2/2 (both queues full), all faults, scripts<=1", False)]
-    _, mock, mockfd, pbf, big = rpipe.parallel(lambda: rpipe.design(ctx, mcs, workers_each=4),
-                                               lambda: rpipe.export(ctx, "mock"), lambda: rpipe.export(ctx, "mockfd"),
-                                               lambda: rpipe.export(ctx, "realpbf"), lambda: rpipe.export(ctx, "mockbig"))
+               ("MCRP_big.cfg", "safety: 6 chunks, bounds 2/2 (both queues full), all faults, scripts<=1", False),
+               ("MCRP_pbfq.cfg", "safety: real PBF parser fed through the input queue (header blob, early exit when the output queue is shut down)", False)]
+    _, mock, mockfd, pbf, big, pbfq = rpipe.parallel(lambda: rpipe.design(ctx, mcs, workers_each=4),
+                                                     lambda: rpipe.export(ctx, "mock"), lambda: rpipe.export(ctx, "mockfd"),
+                                                     lambda: rpipe.export(ctx, "realpbf"), lambda: rpipe.export(ctx, "mockbig"),
+                                                     lambda: rpipe.export(ctx, "realpbfq"))
     cases = []
     nseeds = 2 if quick else 4
     for i, c in enumerate(rpipe.sample(mock, 160 if quick else 2500, rnd, pred=faulty)):
@@ -45,6 +47,15 @@ def run(ctx):
     for i, c in enumerate(rpipe.sample(pbf, 80 if quick else 1000, rnd, pred=okpbf)):
         cases.append(rpipe.mk_case(i, "realpbf", c, rnd, nseeds, format="pbf", R=rnd.choice([3, 40]),
                                    mask=rpipe.mask_of(c["cfg"]), meta=True, single=False))
+    # real PBF data through the input queue (what a compressed .osm.pbf or a memory buffer takes): the mock decompressor
+    # delivers one blob frame per piece to the real PBF parser; a corrupt blob is either damaged data or a BlobHeader
+    # length far above the limit
+    for i, c in enumerate(rpipe.sample(pbfq, 80 if quick else 1000, rnd, pred=okpbf)):
+        cases.append(rpipe.mk_case(i, "realpbfq", c, rnd, nseeds, format="pbf", R=rnd.choice([3, 40]),
+                                   mask=rpipe.mask_of(c["cfg"]), meta=True, single=False,
+                                   # damaged blob data is noticed where the blob is decoded (a pool worker when the pool is used);
+                                   # a fault of the parser thread itself is then a damaged BlobHeader length
+                                   corrupt=("len" if c["cfg"]["pool"] and c["cfg"]["fault"]["at"] > 1 else rnd.choice(["len", "data"]))))
     nexec, nvalid = rpipe.run_cases(ctx, cases)
     finish(ctx, cases, nexec, nvalid)
 
